@@ -364,6 +364,22 @@ def extract_fn(item, opts, blocks, rewrites_log, as_stub=False):
                     q = e + 1; continue
             q += 1
 
+    # ---- R4e (opt foreach=a,b): `for V in X {` with X one of the named reference-to-Vec/slice variables
+    #      ->  `for verif_eN in 0..X.len() { let V = &X[verif_eN];`   (std semantics of IntoIterator for &Vec<T> / &[T]: the elements by reference, in order).
+    #      The `for` keeps its place, so loop / loopiter / loopstart / loopend blocks address it by ordinal as usual.
+    if opts.get('foreach') and not as_stub:
+        names = opts['foreach'].split(',')
+        q = bodyp + 1; ne = 0
+        while q < bodye - 5:
+            if tk(q)[1] == 'for' and tk(q + 1)[0] == 'id' and tk(q + 2)[1] == 'in' and tk(q + 3)[0] == 'id' and tk(q + 3)[1] in names and tk(q + 4)[1] == '{':
+                ne += 1; v = tk(q + 1)[1]; x = tk(q + 3)[1]; iv = 'verif_e%d' % ne
+                edits.append((tk(q + 1)[2], tk(q + 1)[3], R('4', v, iv)))
+                edits.append((tk(q + 3)[2], tk(q + 3)[3], R('4', x, '0..%s.len()' % x)))
+                edits.append((tk(q + 4)[3], tk(q + 4)[3], R('4', '', ' let %s = &%s[%s];' % (v, x, iv))))
+                rewrites_log.append({'rule': 'R4', 'fn': item.name, 'before': 'for %s in %s {' % (v, x), 'after': 'for %s in 0..%s.len() { let %s = &%s[%s];' % (iv, x, v, x, iv)})
+                q += 5; continue
+            q += 1
+
     # ---- R4d (opt iter=1): `X.iter().for_each(|P| { B });` with X any place expression (e.g. self.coeff_modulus)
     #      ->  `for verif_k in verif_it: 0..X.len() { let P = &X[verif_k]; B }`   (ghost text: iterloop / iterbody / iterend, numbered after R4/R4b loops)
     if opts.get('iter') == '1' and not as_stub:
@@ -675,7 +691,7 @@ def apply_edits(text, edits):
     return ''.join(out)
 
 
-def extract_plain(item, opts, rewrites_log):
+def extract_plain(item, opts, rewrites_log, blocks=None):
     """struct / enum / const: drop `pub` tokens (R1) everywhere in the item, keep the rest verbatim"""
     text = item.text
     toks = tokenize(text); ci = code_tokens(toks)
@@ -697,6 +713,15 @@ def extract_plain(item, opts, rewrites_log):
         p += 1
     if edits:
         rewrites_log.append({'rule': 'R1', 'fn': item.name, 'before': 'pub (x%d)' % len(edits), 'after': ''})
+    # user rewrites (RU) on a struct / enum / const: e.g. a field type Verus has no model of replaced by an opaque stand-in
+    for (frm, to, which) in (blocks or {}).get('_rewrites', []):
+        occ = find_code_occurrences(text, toks, ci, 0, len(ci) - 1, frm)
+        if not occ: raise GenErr('%s: rewrite anchor %r not found' % (item.name, frm))
+        sel = occ if which == 'all' else [occ[which - 1]] if which <= len(occ) else None
+        if sel is None: raise GenErr('%s: rewrite anchor %r occurrence %s not found' % (item.name, frm, which))
+        for (s0, e0) in sel:
+            edits.append((s0, e0, R('U', text[s0:e0], to)))
+            rewrites_log.append({'rule': 'RU', 'fn': item.name, 'before': frm, 'after': to})
     return apply_edits(text, edits)
 
 
@@ -862,7 +887,7 @@ def generate(unit_name):
             if kind == 'fn':
                 txt = extract_fn(item, opts, blocks, u.rewrites, as_stub=assumed)
             else:
-                txt = extract_plain(item, opts, u.rewrites)
+                txt = extract_plain(item, opts, u.rewrites, blocks)
             check_erasure(item, txt)
             if assumed:
                 txt = '#[verifier::external_body] /*@A ASSUMED contract: body not verified*/\n' + txt
